@@ -247,11 +247,17 @@ class Server:
           in the servlet will eventually see the sentinel and exit.
         - Wait for the servlet and all helper threads to exit.
         """
-        self.servlet.stop()
-        self._gather_thread.join()
         if self._onboard_thread is not None:
+            # Send the end sentinel through the input buffer first, so that it
+            # follows the requests still waiting there (e.g. left by an abandoned
+            # stream). If the servlet were stopped first, the workers would exit
+            # at its sentinel while the onboarding thread keeps writing the remaining
+            # requests into a pipe that nobody reads any more, and blocks forever
+            # once the pipe is full.
             self._input_buffer.put(None)
             self._onboard_thread.join()
+        self.servlet.stop()
+        self._gather_thread.join()
         self._clear_ledger()
 
     def _clear_ledger(self):
@@ -539,6 +545,10 @@ class AsyncServer:
         return self
 
     async def __aexit__(self, *args):
+        if self._onboard_thread is not None:
+            # See `Server.__exit__`.
+            self._input_buffer.put(None)
+            self._onboard_thread.join()
         self.servlet.stop()
         self._gather_thread.join()
 
@@ -557,9 +567,6 @@ class AsyncServer:
                 except asyncio.TimeoutError:
                     pass
 
-        if self._onboard_thread is not None:
-            self._input_buffer.put(None)
-            self._onboard_thread.join()
         Server._clear_ledger(self)
 
     async def call(self, x, /, *, timeout: int | float = 60, backpressure: bool = True):
